@@ -81,7 +81,7 @@ def expand(expr):
     return expr
 
 
-def insert_contracts(csrc, spec, extra_includes, extra_requires=None):
+def insert_contracts(csrc, spec, extra_includes, extra_requires=None, only=None):
     """replace /*@CONTRACT fn@*/ markers; returns (text, linemap) where linemap maps line number of
     the produced file -> (function, clause)"""
     out = []
@@ -98,6 +98,9 @@ def insert_contracts(csrc, spec, extra_includes, extra_requires=None):
             out.append('/* no contract: verified inlined into its callers */')
             continue
         missing.discard(fn)
+        if only is not None and fn not in only:
+            out.append('/* contract in contracts/%s.spec (not needed by this proof unit) */' % spec.container)
+            continue
         out.append('__CPROVER_requires(__CPROVER_is_fresh(self, sizeof(*self)))')
         for c in fs.clauses:
             if c.kind == 'requires':
